@@ -509,6 +509,24 @@ class Analysis:
                 out = self._kill(out, lambda v: isinstance(v, tuple) and v != t and any(s == t for s in subterms(v)))
                 return frozenset(out)
             return frozenset(self.kill_term(cs, t))
+        if e.op == "/=" and tl is not None and self._is_unsigned(tgt.ty):
+            r = self.lin(e.kid(1), st)
+            if r is not None and r.is_const() and r.k.denominator == 1 and r.k >= 1:
+                # x /= k: the old value becomes a temporary bracketed by the new one, k*x <= old <= k*x + k - 1
+                k = int(r.k)
+                old = ("$old", self.f.name, e.pos)
+                out = [le0(_lin_of_con(c).subst(t, Lin.var(old))) for c in cs]
+                out += self._bounds([t]) and [le0(-Lin.var(old))] or [le0(-Lin.var(old))]
+                x = Lin.var(t)
+                out += cons("<=", x.scale(k), Lin.var(old)) + cons("<=", Lin.var(old), x.scale(k) + (k - 1))
+                out = _simplify(out)
+                if out is False:
+                    return None
+                out = project(out, old)
+                out = self._kill(out, lambda v: isinstance(v, tuple) and v != t and any(s == t for s in subterms(v)))
+                self.unsigned.add(t)
+                return frozenset(out)
+            return frozenset(self.kill_term(cs, t))
         if e.op == "=":
             r = self.lin(e.kid(1), st)
             cs = self.kill_term(cs, t)
@@ -633,13 +651,13 @@ class Analysis:
             return None
         out = set()
         for P in st:
-            r = self._refine(P, cond, kind)
-            if r is not None:
+            for r in self._refine(P, cond, kind):
                 out.add(r)
         return self._norm_disj(out)
 
     def _refine(self, st, cond, kind):
-        cs = list(st)
+        """Constraint sets (usually one; two when a != test splits an interval) for `st` on the given edge of `cond`."""
+        alts = [list(st)]
         if kind in (True, False):
             for op, L, R, Le, Re in cond_atoms(cond, kind):
                 # the atom's constants are authoritative (cond_atoms also reports x > 4 as x >= 5 with the original elements)
@@ -648,22 +666,34 @@ class Analysis:
                 if a is None or b is None:
                     continue
                 if op == "!=":
-                    if self.holds(st, ">=", a, b):
-                        cs += cons(">", a, b)
-                    elif self.holds(st, "<=", a, b):
-                        cs += cons("<", a, b)
+                    nxt = []
+                    for cs in alts:
+                        cur = frozenset(c for c in cs if isinstance(c, tuple))
+                        if self.holds(cur, ">=", a, b):
+                            nxt.append(cs + cons(">", a, b))
+                        elif self.holds(cur, "<=", a, b):
+                            nxt.append(cs + cons("<", a, b))
+                        elif len(alts) < 4:
+                            nxt.append(cs + cons("<", a, b))
+                            nxt.append(cs + cons(">", a, b))
+                        else:
+                            nxt.append(cs)
+                    alts = nxt
                     continue
-                cs += cons(op, a, b)
+                alts = [cs + cons(op, a, b) for cs in alts]
         elif isinstance(kind, tuple) and kind[0] == "case":
             a = self.lin(cond, st)
             if a is not None and isinstance(kind[1], int):
-                cs += cons("==", a, Lin.const(kind[1]))
-        s2 = _simplify(cs)
-        if s2 is False:
-            return None
-        if not feasible(s2 + self._bounds(self._vars(s2))):
-            return None
-        return frozenset(s2)
+                alts = [cs + cons("==", a, Lin.const(kind[1])) for cs in alts]
+        res = []
+        for cs in alts:
+            s2 = _simplify(cs)
+            if s2 is False:
+                continue
+            if not feasible(s2 + self._bounds(self._vars(s2))):
+                continue
+            res.append(frozenset(s2))
+        return res
 
     # -- join ----------------------------------------------------------------------------
     @staticmethod
